@@ -546,3 +546,257 @@ Section Main.
     apply (blockify_block_is_subtensor_at shape b t k widx Hb Hacc Hwf Hsh Hk Hw).
   Qed.
 End Main.
+
+(* ================= (C) reshaper: merge / unmerge (reshape + pad / slice + reshape) ================= *)
+Local Open Scope Z_scope.
+
+(* a merged dimension after padding to the next multiple of the block size *)
+Definition pad_dim (b s : Z) : Z := if s >=? b then ((s + b - 1) / b) * b else s.
+
+Lemma fold_snoc_map {X Y} (f : X -> Y) : forall l acc,
+  fold_left (fun acc x => acc ++ [f x]) l acc = acc ++ map f l.
+Proof.
+  induction l as [|x l IH]; intro acc; cbn [fold_left map]; [rewrite app_nil_r; reflexivity|].
+  rewrite IH, <- app_assoc. reflexivity.
+Qed.
+
+Lemma derive_shapes_spec m b shape :
+  derive_shapes m b shape =
+  let merged := merge_small_dims shape m in
+  if list_eqb_z merged [1] then Build_Shapes shape [] []
+  else Build_Shapes shape merged (if b =? 0 then merged else map (pad_dim b) merged).
+Proof.
+  unfold derive_shapes. cbv zeta. destruct (list_eqb_z (merge_small_dims shape m) [1]); [reflexivity|].
+  destruct (b =? 0); [reflexivity|]. f_equal.
+  exact (fold_snoc_map (pad_dim b) (merge_small_dims shape m) []).
+Qed.
+
+Lemma pad_dim_spec b s : 0 < b ->
+  (b <= s -> pad_dim b s mod b = 0 /\ s <= pad_dim b s < s + b) /\ (s < b -> pad_dim b s = s).
+Proof.
+  intro Hb. unfold pad_dim. destruct (s >=? b) eqn:E; split; intro H; try lia.
+  split; [apply Z_mod_mult|].
+  pose proof (Z.div_mod (s + b - 1) b ltac:(lia)) as H1.
+  pose proof (Z.mod_pos_bound (s + b - 1) b Hb) as H2. lia.
+Qed.
+
+Lemma pad_dim_ge b s : 0 < b -> s <= pad_dim b s.
+Proof.
+  intro Hb. destruct (pad_dim_spec b s Hb) as [H1 H2].
+  destruct (Z_lt_dec s b) as [Hlt|Hge]; [rewrite H2 by exact Hlt; lia | apply H1; lia].
+Qed.
+
+Lemma prod_z_nonneg l : Forall (fun x => 0 <= x) l -> 0 <= prod_z l.
+Proof.
+  induction 1 as [|x l Hx Hl IH]; [rewrite prod_z_nil; lia | rewrite prod_z_cons; nia].
+Qed.
+
+Lemma prodn_to_nat l : Forall (fun x => 0 <= x) l -> prodn (map Z.to_nat l) = Z.to_nat (prod_z l).
+Proof.
+  induction 1 as [|x l Hx Hl IH]; [reflexivity|]. cbn [map prodn].
+  rewrite prod_z_cons, IH, Z2Nat.inj_mul; [reflexivity | exact Hx | apply prod_z_nonneg; exact Hl].
+Qed.
+
+Lemma Forall2_le_refl (l : list nat) : Forall2 le l l.
+Proof. induction l; constructor; [lia | assumption]. Qed.
+
+Lemma derive_shapes_facts m b shape :
+  1 <= m -> 0 <= b -> Forall (fun d => 1 <= d) shape ->
+  let s := derive_shapes m b shape in
+  sh_original_shape s = shape /\
+  prodn (map Z.to_nat (sh_merged_shape s)) = prodn (map Z.to_nat shape) /\
+  (b = 0 -> sh_padded_shape s = sh_merged_shape s) /\
+  Forall2 le (map Z.to_nat (sh_merged_shape s)) (map Z.to_nat (sh_padded_shape s)).
+Proof.
+  intros Hm Hb Hall s. unfold s. rewrite derive_shapes_spec. cbv zeta.
+  assert (Hnn : Forall (fun x => 0 <= x) shape).
+  { eapply Forall_impl; [|exact Hall]. intros a Ha. cbv beta in Ha. lia. }
+  pose proof (merge_small_dims_product shape m Hm Hall) as Hprod.
+  destruct (list_eqb_z (merge_small_dims shape m) [1]) eqn:E1; cbn [sh_original_shape sh_merged_shape sh_padded_shape].
+  - apply list_eqb_z_spec in E1. rewrite E1 in Hprod.
+    repeat split; [|constructor].
+    cbn [map prodn]. rewrite prodn_to_nat by exact Hnn. rewrite <- Hprod. reflexivity.
+  - assert (Hmn : Forall (fun x => 0 <= x) (merge_small_dims shape m)).
+    { destruct (merge_small_dims_no_unit shape m Hm Hall) as [H|H].
+      - rewrite H. constructor; [lia | constructor].
+      - eapply Forall_impl; [|exact H]. intros a Ha. cbv beta in Ha. lia. }
+    split; [reflexivity|]. split; [|split].
+    + rewrite !prodn_to_nat by assumption. rewrite Hprod. reflexivity.
+    + intros ->. reflexivity.
+    + destruct (b =? 0) eqn:Eb; [apply Forall2_le_refl|].
+      assert (Hb' : 0 < b) by lia. clear - Hb'.
+      induction (merge_small_dims shape m) as [|x l IH]; cbn [map]; constructor; [|exact IH].
+      pose proof (pad_dim_ge b x Hb'). lia.
+Qed.
+
+(* every padded dimension is the merged one rounded up to a multiple of the block size (only the
+   dimensions >= block size are padded) *)
+Theorem derive_shapes_padded_multiple m b shape :
+  0 < b ->
+  let s := derive_shapes m b shape in
+  Forall2 (fun md pd => (b <= md -> pd mod b = 0 /\ md <= pd < md + b) /\ (md < b -> pd = md))
+          (sh_merged_shape s) (sh_padded_shape s).
+Proof.
+  intros Hb s. unfold s. rewrite derive_shapes_spec. cbv zeta.
+  destruct (list_eqb_z (merge_small_dims shape m) [1]); cbn [sh_merged_shape sh_padded_shape]; [constructor|].
+  replace (b =? 0) with false by lia.
+  induction (merge_small_dims shape m) as [|x l IH]; cbn [map]; constructor; [|exact IH].
+  apply pad_dim_spec. exact Hb.
+Qed.
+
+Section Reshaper.
+  Variable A : Type.
+  Variable zero : A.
+  Notation tensor := (tensor A).
+  Notation wf := (wf A).
+  Notation t_at := (t_at zero).
+  Notation merge := (merge zero).
+  Notation unmerge := (unmerge zero).
+
+  Lemma merge_cases m b shape (t : tensor) :
+    1 <= m -> 0 <= b -> Forall (fun d => 1 <= d) shape ->
+    let s := derive_shapes m b shape in
+    let M := map Z.to_nat (sh_merged_shape s) in
+    let Pd := map Z.to_nat (sh_padded_shape s) in
+    (merge m b shape t = reshape M t /\ Pd = M) \/
+    (merge m b shape t = pad_to zero Pd (reshape M t) /\ (b =? 0) = false).
+  Proof.
+    intros Hm Hb Hall s M Pd.
+    destruct (derive_shapes_facts m b shape Hm Hb Hall) as (Ho & Hp & Hb0 & Hle).
+    fold s in Ho, Hp, Hb0, Hle. fold M Pd in Hle.
+    unfold BlockifyModel.merge, merge_shapes. fold s. cbv zeta. fold M Pd.
+    destruct (b =? 0) eqn:Eb.
+    - left. replace (b >? 0) with false by lia. rewrite andb_false_r. split; [reflexivity|].
+      unfold Pd, M. rewrite Hb0 by lia. reflexivity.
+    - replace (b >? 0) with true by lia. rewrite andb_true_r.
+      destruct (combine Pd M) as [|pm rest] eqn:Ec; cbn [is_nil negb].
+      + left. split; [reflexivity|].
+        inversion Hle as [Hx Hy | x y l l' Hxy Hl Hx Hy].
+        * reflexivity.
+        * rewrite <- Hx, <- Hy in Ec. discriminate.
+      + right. split; reflexivity.
+  Qed.
+
+  (* unmerge inverts merge: reshape to the merged shape, pad with zeros, slice the padding off,
+     reshape back — including block_size = 0 (no padding) and rank-0 / all-ones parameters *)
+  Theorem unmerge_merge_id m b shape (t : tensor) :
+    1 <= m -> 0 <= b -> Forall (fun d => 1 <= d) shape ->
+    wf t -> t_shape t = map Z.to_nat shape ->
+    unmerge m b shape (merge m b shape t) = t.
+  Proof.
+    intros Hm Hb Hall Hwf Hsh.
+    destruct (derive_shapes_facts m b shape Hm Hb Hall) as (Ho & Hp & Hb0 & Hle).
+    pose proof (merge_cases m b shape t Hm Hb Hall) as Hc. cbv zeta in Hc.
+    set (s := derive_shapes m b shape) in *.
+    set (M := map Z.to_nat (sh_merged_shape s)) in *. set (Pd := map Z.to_nat (sh_padded_shape s)) in *.
+    assert (HwfM : wf (reshape M t)) by (apply reshape_wf; [exact Hwf | rewrite Hsh; exact Hp]).
+    unfold BlockifyModel.unmerge, unmerge_shapes. fold s. cbv zeta. fold M. rewrite Ho, <- Hsh.
+    destruct Hc as [[-> HPM] | [-> Eb]].
+    - destruct (b =? 0); [apply reshape_round_trip|].
+      pose proof (slice_self A zero (reshape M t) HwfM) as Hs.
+      change (t_shape (reshape M t)) with M in Hs. rewrite Hs. apply reshape_round_trip.
+    - rewrite Eb. pose proof (slice_pad A zero Pd (reshape M t) HwfM Hle) as Hs.
+      change (t_shape (reshape M t)) with M in Hs. rewrite Hs. apply reshape_round_trip.
+  Qed.
+
+  (* bookkeeping of the merged / padded tensor *)
+  Theorem merge_shape_wf m b shape (t : tensor) :
+    1 <= m -> 0 <= b -> Forall (fun d => 1 <= d) shape -> wf t -> t_shape t = map Z.to_nat shape ->
+    t_shape (merge m b shape t) = map Z.to_nat (sh_padded_shape (derive_shapes m b shape)) /\
+    wf (merge m b shape t).
+  Proof.
+    intros Hm Hb Hall Hwf Hsh.
+    destruct (derive_shapes_facts m b shape Hm Hb Hall) as (Ho & Hp & Hb0 & Hle).
+    destruct (merge_cases m b shape t Hm Hb Hall) as [[-> HPM] | [-> Eb]].
+    - split; [cbn [t_shape reshape]; symmetry; exact HPM|].
+      apply reshape_wf; [exact Hwf | rewrite Hsh; exact Hp].
+    - split; [reflexivity | apply pad_to_wf].
+  Qed.
+
+  (* real entries keep their row-major order: entry idx of the merged (and padded) tensor is the
+     entry of the original data at the flat position of idx in the merged shape *)
+  Theorem merge_real_entries m b shape (t : tensor) idx :
+    1 <= m -> 0 <= b -> Forall (fun d => 1 <= d) shape ->
+    in_range (map Z.to_nat (sh_merged_shape (derive_shapes m b shape))) idx ->
+    t_at (merge m b shape t) idx
+    = nth (flatten_index (map Z.to_nat (sh_merged_shape (derive_shapes m b shape))) idx) (t_data t) zero.
+  Proof.
+    intros Hm Hb Hall Hi.
+    destruct (derive_shapes_facts m b shape Hm Hb Hall) as (Ho & Hp & Hb0 & Hle).
+    destruct (merge_cases m b shape t Hm Hb Hall) as [[-> HPM] | [-> Eb]].
+    - reflexivity.
+    - rewrite pad_inside; [reflexivity | exact Hle | exact Hi].
+  Qed.
+
+  (* ... and everything else is zero padding *)
+  Theorem merge_padding_zero m b shape (t : tensor) idx :
+    1 <= m -> 0 <= b -> Forall (fun d => 1 <= d) shape ->
+    in_range (map Z.to_nat (sh_padded_shape (derive_shapes m b shape))) idx ->
+    ~ in_range (map Z.to_nat (sh_merged_shape (derive_shapes m b shape))) idx ->
+    t_at (merge m b shape t) idx = zero.
+  Proof.
+    intros Hm Hb Hall Hi Hn.
+    destruct (merge_cases m b shape t Hm Hb Hall) as [[-> HPM] | [-> Eb]].
+    - exfalso. apply Hn. rewrite <- HPM. exact Hi.
+    - apply pad_outside; assumption.
+  Qed.
+End Reshaper.
+
+(* ================= non-vacuity: the hypotheses are satisfiable (tests, vm_compute) ================= *)
+Lemma acceptedb_accepted shape b : acceptedb shape b = true -> accepted shape b.
+Proof.
+  unfold acceptedb, accepted. intro H.
+  apply andb_true_iff in H as [H H3]. apply andb_true_iff in H as [H1 H2].
+  rewrite forallb_forall in H1, H3. repeat split.
+  - apply Forall_forall. intros d Hd. specialize (H1 d Hd). lia.
+  - lia.
+  - apply Forall_forall. intros d Hd Hbd. specialize (H3 d Hd). lia.
+Qed.
+
+(* shape [3;2;6], block 3: two large axes with a small axis in between and 2 blocks on the right
+   axis (the input on which the seeded moveaxis variant of _deblockify goes wrong) *)
+Example accepted_3_2_6 : accepted [3; 2; 6] 3.
+Proof. apply acceptedb_accepted. vm_compute. reflexivity. Qed.
+
+Example blockify_3_2_6 :
+  blockify 0 (blocks_metadata 3 [3; 2; 6]) (mkT [3; 2; 6]%nat (zrange 36))
+  = mkT [2; 3; 2; 3]%nat
+        [0; 1; 2; 6; 7; 8; 12; 13; 14; 18; 19; 20; 24; 25; 26; 30; 31; 32;
+         3; 4; 5; 9; 10; 11; 15; 16; 17; 21; 22; 23; 27; 28; 29; 33; 34; 35].
+Proof. vm_compute. reflexivity. Qed.
+
+Example block1_3_2_6 :
+  take_axis 0 0 1 (blockify 0 (blocks_metadata 3 [3; 2; 6]) (mkT [3; 2; 6]%nat (zrange 36)))
+  = mkT [3; 2; 3]%nat [3; 4; 5; 9; 10; 11; 15; 16; 17; 21; 22; 23; 27; 28; 29; 33; 34; 35].
+Proof. vm_compute. reflexivity. Qed.
+
+(* moving the right block-count axis back by ONE position only (jnp.moveaxis(x, ba+1, ba+2)) is
+   not the inverse when a small axis sits between the two large axes *)
+Example moveaxis_by_one_is_not_the_inverse :
+  let meta := blocks_metadata 3 [3; 2; 6] in
+  let x := mkT [3; 2; 6]%nat (zrange 36) in
+  t_data (reshape [3; 2; 6]%nat
+            (transpose 0 (move_perm 5 1 2) (reshape [1; 2; 3; 2; 3]%nat (blockify 0 meta x))))
+  <> t_data x.
+Proof. vm_compute. discriminate. Qed.
+
+(* other accepted shapes: none / one large axis, large axes adjacent, leading, trailing *)
+Example accepted_more :
+  accepted [2; 2] 3 /\ accepted [2; 6; 2] 3 /\ accepted [6; 9] 3 /\ accepted [4; 2; 8; 3] 4 /\
+  ~ accepted [3; 3; 3] 3 /\ ~ accepted [5; 2] 3 /\ ~ accepted [1; 2] 3.
+Proof.
+  split; [apply acceptedb_accepted; vm_compute; reflexivity|].
+  split; [apply acceptedb_accepted; vm_compute; reflexivity|].
+  split; [apply acceptedb_accepted; vm_compute; reflexivity|].
+  split; [apply acceptedb_accepted; vm_compute; reflexivity|].
+  split; [|split]; intros (H1 & H2 & H3).
+  - vm_compute in H2. apply H2. reflexivity.
+  - inversion H3 as [|? ? Hd _]; subst. specialize (Hd ltac:(lia)). vm_compute in Hd. discriminate.
+  - inversion H1 as [|? ? Hd _]; subst. apply Hd. reflexivity.
+Qed.
+
+Example merge_2_2_5 :
+  merge 0 4 3 [2; 2; 5] (mkT [2; 2; 5]%nat (map (fun k => k + 1) (zrange 20)))
+  = mkT [6; 6]%nat [1; 2; 3; 4; 5; 0; 6; 7; 8; 9; 10; 0; 11; 12; 13; 14; 15; 0; 16; 17; 18; 19; 20; 0;
+                    0; 0; 0; 0; 0; 0; 0; 0; 0; 0; 0; 0].
+Proof. vm_compute. reflexivity. Qed.
